@@ -390,6 +390,67 @@ SRV_ASSUME = [
     "liveness (every delivered call is eventually answered) is checked by the oracle at the end of each schedule (after final polls), not yet a theorem; the theorems are safety/refinement statements for every prefix",
 ]
 
+# ------------------------------------------------------------------------------------ envelope (C04, C05)
+
+def reply_nontrivial(inp, impl):
+    ks = []
+    if impl == "ok":
+        ks.append("classified-success")
+    if impl.startswith("me:"):
+        ks.append("classified-method-error")
+    if impl.startswith("se:"):
+        ks.append("classified-service-error")
+    if impl == "json":
+        ks.append("classified-decode-error")
+    j = inp.split(" J ")[-1] if " J " in inp else ""
+    if "6572726f72:" in j:
+        ks.append("has-error-member")
+    return ks
+
+
+def env_nontrivial(inp, impl):
+    ks = []
+    kind = inp.split(" ", 1)[0]
+    ks.append(kind)
+    if impl.startswith("ok"):
+        ks.append(kind + "-accepted")
+    if impl == "json":
+        ks.append(kind + "-refused")
+    return ks
+
+
+def env_known_key(line):
+    # canonical key of a failing envelope case: the explicit `noparams` witnesses only
+    if line.startswith("noparams "):
+        return " ".join(line.split(" =>")[0].split())
+    return None
+
+
+def run_reply(run, cfg, G):
+    diff_run(run, G, ["reply"], "reply", reply_nontrivial, "reply")
+    def search():
+        diff_run(run, G, ["reply"], "reply", reply_nontrivial, "reply-search", tier="thorough", seed_offset=1, record=False)
+    finish_corr(run, G, [search])
+    run.cov["rule"] = ("30 compiled receivers = 6 parameter types (unit, serde_json::Value, strict struct, borrowed-str struct, all-optional struct, mixed struct) x 5 error types (derive-generated: unit + struct variants, "
+                       "borrowed fields, renamed/optional fields, empty enum, bool/Value fields); per receiver 700 (thorough 8000) type-directed reply objects: success with right / wrong / missing / extra / positional parameters "
+                       "and continues of every kind; declared errors with right / wrong / missing / extra / absent / null / {} parameters; the six standard errors likewise; undeclared names; non-string error members; "
+                       "well-formed successes that also carry an error member; shuffled member order, occasional duplicates; the class reported by receive_reply is compared with the model and judged by the Lean oracle; "
+                       "non-trivial = any class observed; distinct = distinct case lines")
+
+
+def run_envelope(run, cfg, G):
+    for pre in ("calldec", "enc", "noparams"):
+        diff_run(run, G, ["envelope"], pre, env_nontrivial, "envelope-" + pre, known_key=env_known_key)
+    def search():
+        for pre in ("calldec", "enc"):
+            diff_run(run, G, ["envelope"], pre, env_nontrivial, "envelope-search-" + pre, tier="thorough", seed_offset=1, record=False, known_key=env_known_key)
+    finish_corr(run, G, [search])
+    run.cov["rule"] = ("calldec: 4 method types (owned / borrowed adjacently tagged enums, varlink_service::Method, a plain struct) x all 8 subsets of present flags x their values x ALL permutations of the (<= 5) members, "
+                       "with unknown members, wrong / missing / null / {} parameters, unknown or non-string method, non-boolean and repeated flags, decoded through receive_call; "
+                       "enc: calls (flags in all combinations), derived and standard errors, replies with/without parameters/continues sent through the connection and compared byte for byte with the model's encoder; "
+                       "noparams: absent / null / {} parameters for GetInfo, a standard error, a derived field-less error and a unit-output reply; non-trivial = accepted / refused per kind; distinct = distinct case lines")
+
+
 RX_ASSUME = [
     "which bytes are a JSON document of the requested shape is serde_json/serde's business: the model takes `decode this frame` as an opaque per-frame function (theorems hold for every such function); the harness instantiates it with the verdict of a fresh connection receiving that frame alone and cross-checks call receivers against serde_json::from_slice",
     "the ReadHalf contract: a read future that is dropped while pending has consumed nothing",
@@ -465,6 +526,27 @@ PROPS = {
         "theorems": ["C01.C01_framing", "C01.C01_poll", "C01.C01_errors_local", "C01.C01_oracle"],
         "run": run_rx, "search": search_rx,
         "trusted_base": TB_COMMON, "assumptions": RX_ASSUME,
+    },
+    "C04": {
+        "property_modules": ["Zlink.Properties.C04"], "lean_modules": ["Zlink.Properties.C04"],
+        "theorems": ["C04.C04_error_never_success", "C04.C04_success_iff", "C04.C04_service_error_iff", "C04.C04_method_error_iff",
+                     "C04.C04_reported_error_is_named", "C04.C04_no_error_member_no_error"],
+        "run": run_reply, "trusted_base": TB_COMMON,
+        "assumptions": [
+            "serde / serde_derive / serde_json decoding semantics are MODELLED for the shape family of Zlink/Model/Envelope.lean (untagged choice in declaration order, adjacently tagged enums, Option, unit, Value, duplicate/unknown members, positional sequences, borrowed strings) and validated by the correspondence corpus (30 receivers), not verified",
+            "frames are JSON objects (a non-object document has no `error` member; such frames go through the rx scenario); numbers are carried as integers or opaque text",
+        ],
+    },
+    "C05": {
+        "property_modules": ["Zlink.Properties.C05"], "lean_modules": ["Zlink.Properties.C05"],
+        "theorems": ["C05.C05_flag_names", "C05.C05_flags_only_when_set", "C05.C05_flags_hidden", "C05.C05_call_roundtrip", "C05.C05_error_encoding",
+                     "C05.C05_error_roundtrip", "C05.C05_error_member_order", "C05.C05_reply_encoding", "C05.C05_no_parameters_spellings"],
+        "run": run_envelope, "trusted_base": TB_COMMON,
+        "assumptions": [
+            "serde / serde_derive semantics modelled for the shape family (see C04); field values are strings without escapes, integers, booleans, options, arbitrary JSON",
+            "member-order independence is proved for tag/content and checked exhaustively over all permutations of <= 5 members by the correspondence run (a general permutation theorem is not stated)",
+            "the unit-output proxy clause is judged on receive_reply::<(), E> (what the proxy macro instantiates); see the known finding",
+        ],
     },
     "C06": {
         "property_modules": ["Zlink.Properties.C06"],
